@@ -5,6 +5,21 @@ ROOT = os.path.dirname(os.path.dirname(os.path.abspath(__file__)))
 IDS = ["C%02d" % i for i in range(1, 21)]
 
 CHECKS = {
+    "C08": dict(
+        technique="trace validation of recorded Module histories against the actions of Lifecycle.tla (TLC), design spec model-checked (EmitIsPure, RepeatedEmitsEqual, Fixpoint)",
+        text="Lifecycle.tla models parse / emit / gc / reparse with respect to custom sections, names, producers, DWARF and the emitted bytes; TLC checks that Emit leaves the module state unchanged, that consecutive emits are equal and that reparse;emit is a fixpoint. Recorded histories (three scripts x two switch vectors per input) carry, per event, the Module's observable custom sections and the digest and inventory of the emitted bytes; each event is replayed as IsEvent /\\ bind /\\ spec action. Digests from three further OS processes are joined into the trace.",
+        note="Trusted: TLC; FNV-1a 64-bit digests stand for byte equality (collision probability negligible for this purpose). 'Across processes' is a finite number of launches. One known finding (reparse after GC, same root cause as C06's).",
+        design_ref="DESIGN.md §5 C08"),
+    "C12": dict(
+        technique="trace validation against Lifecycle.tla (C12 conjuncts) by TLC; placements enumerated exhaustively by TLC (Enum_Customs.tla)",
+        text="Every placement of up to two unknown custom sections (duplicate names, empty payloads) before, between and after all 13 standard sections of a fixed module is enumerated by TLC and built; with fixtures and generated modules these run through the histories emit / gc;emit / emit;emit / emit;gc;emit;reparse;emit; after every call the sections held by the Module, and in every emitted binary the sequence of (name, payload digest), must equal the input's; the reparsed input must read back what was written.",
+        note="Trusted: wasmparser section reader, TLC, 64-bit digests. 'Unknown' = not name, not producers, not .debug*.",
+        design_ref="DESIGN.md §5 C12"),
+    "C14": dict(
+        technique="differential section-inventory relation over the whole 2^5 switch space evaluated by TLC (Trace_Config.tla) + trace validation against Lifecycle.tla",
+        text="Each input is run under all 32 vectors of the boolean switches (names, producers, dwarf, preserve_code_transform, only_stable_features); TLC requires, for every pair of vectors differing in exactly one switch, that the emitted section inventories differ by exactly the section that switch governs; that a switched-off section is absent; that the producers fields are preserved in order with walrus recorded exactly once (also after repeated round trips, via the Lifecycle histories); and that the parse callback ran once per successful and never on a failed parse.",
+        note="Trusted: wasmparser, TLC. DWARF generation is switched on only for inputs without debug sections or with well-formed synthesized DWARF. Lifecycle.tla plays the role DESIGN.md gave to Config.tla.",
+        design_ref="DESIGN.md §5 C14"),
     "C03": dict(
         technique="TLA+ elision matcher (BodyOps.tla / Trace_Body.tla) run by TLC over recorded operator streams; design model Body.tla model-checked over all valid control strings",
         text="Body.tla models the validator fragment, walrus's control-stack parser (unreachable flags, if/else state) and its emitter, and TLC checks EmittedMatches/EmittedBalanced over every valid control string up to the bound; every such string is concretised and run through the real code together with an exhaustive operator sweep (every operator of the feature set x boundary immediates, in live and in dead position, operand types discovered by probing the validator), fixtures, generated modules and a real-world module; the matcher state machine must align each input function with its output function (same opcode, bit-identical immediates, resolved block signature, sigma-mapped entity operands, injective type-preserving local map, equal branch depths).",
